@@ -7,6 +7,8 @@
 pub mod checks;
 pub mod cmp;
 pub mod exec;
+pub mod refcheck;
+pub mod reference;
 pub mod rng;
 pub mod run;
 pub mod simdb;
@@ -34,6 +36,35 @@ fn main() {
         }
         "check" => cmd_check(&args),
         "selftest" => cmd_selftest(&args),
+        "solve" => {
+            // chalk-sim solve <spec-or-world.json>: every goal x solver kind, fresh, isolated, 10 s guard
+            let text = std::fs::read_to_string(args.get(2).expect("file")).expect("read");
+            let v: Value = serde_json::from_str(&text).expect("json");
+            let world = if v.get("world").is_some() { v["world"].clone() } else if v.get("spec").is_some() { v["spec"]["world"].clone() } else { v.clone() };
+            let ng = world["goals"].as_array().map(|a| a.len()).unwrap_or(0);
+            let mut reqs = vec![];
+            for gi in 0..ng {
+                for kind in ["slg", "rec", "rec-nocache"] {
+                    reqs.push(json!({"check": "TRIAGE", "idx": reqs.len(), "spec": {"world": world, "goal": gi, "kind": kind}}));
+                }
+            }
+            let res = run_requests(reqs, default_jobs(), Duration::from_secs(10));
+            for (i, r) in res.iter().enumerate() {
+                let (gi, k) = (i / 3, ["slg", "rec", "rec-nocache"][i % 3]);
+                println!("goal {} `{}` {:12} -> {} {}", gi, world["goals"][gi].as_str().unwrap_or(""), k, r.outcome, r.sample.as_ref().map(|s| s.to_string()).unwrap_or_default());
+            }
+            0
+        }
+        "gen" => {
+            // print the explicit spec of one run without executing it
+            let id = args.get(2).cloned().unwrap_or_default();
+            let tier = arg_val(&args, "--tier").unwrap_or_else(|| "quick".into());
+            let base = arg_val(&args, "--seed").and_then(|s| s.parse().ok()).unwrap_or_else(env_seed);
+            let idx: u64 = arg_val(&args, "--idx").and_then(|s| s.parse().ok()).unwrap_or(0);
+            let seed = rng::run_seed(base, &id, idx);
+            println!("{}", serde_json::to_string_pretty(&checks::gen(&id, &tier, seed, idx, base)).unwrap());
+            0
+        }
         "triage-corpus" => cmd_triage(&args),
         _ => {
             eprintln!("usage: chalk-sim check <ID> [--tier quick|thorough] [--seed N] [--jobs N] [--runs N] [--replay FILE] | selftest | triage-corpus");
@@ -185,6 +216,19 @@ fn cmd_check(args: &[String]) -> i32 {
         return cmd_replay(&id, &path, timeout);
     }
 
+    // replays of earlier runs of this check are stale by definition
+    if let Ok(rd) = std::fs::read_dir(replay_dir()) {
+        for e in rd.flatten() {
+            if e.file_name().to_string_lossy().starts_with(&format!("{}-", id)) {
+                let _ = std::fs::remove_file(e.path());
+            }
+        }
+    }
+    if let Some(only) = arg_val(args, "--only").and_then(|s| s.parse::<u64>().ok()) {
+        let r = run_requests(vec![json!({"check": id, "tier": tier, "base": base, "idx": only, "want_spec": true})], 1, timeout * 2).remove(0);
+        println!("{}", serde_json::to_string_pretty(&r).unwrap());
+        return if r.violations.is_empty() { 0 } else { 1 };
+    }
     let t0 = Instant::now();
     let meta = checks::meta(&id);
     let n = arg_val(args, "--runs").and_then(|s| s.parse().ok()).unwrap_or_else(|| checks::n_runs(&id, &tier));
@@ -195,7 +239,8 @@ fn cmd_check(args: &[String]) -> i32 {
     let mut retried = 0;
     for r in results.iter_mut() {
         if r.outcome == "timeout" || r.outcome.starts_with("abort") {
-            if retried >= 12 {
+            println!("EXCLUDED-RUN {} run {}: {}", id, r.idx, r.outcome);
+            if retried >= 12 || !checks::timeouts_are_violations(&id) {
                 continue;
             }
             retried += 1;
@@ -231,6 +276,16 @@ fn cmd_check(args: &[String]) -> i32 {
             }
         }
     }
+    if std::env::var("VERIF_TRIAGE").is_ok() {
+        let mut hist: BTreeMap<String, (u64, u64)> = BTreeMap::new();
+        for (idx, _, v, _) in &fresh_violations {
+            let e = hist.entry(format!("{} [{}]", v.sig.clone().unwrap_or_default(), v.class)).or_insert((0, *idx));
+            e.0 += 1;
+        }
+        for (k, (n, first)) in &hist {
+            println!("TRIAGE {:6} x {}  (first run {})", n, k, first);
+        }
+    }
     for (k, n) in &known {
         println!("KNOWN-FINDING: property={} {} ({} runs matched)", id, k, n);
     }
@@ -244,10 +299,11 @@ fn cmd_check(args: &[String]) -> i32 {
     // report: one replay per violation class (lowest run index), minimised and verified
     let mut by_class: BTreeMap<String, (u64, u64, Violation, Value)> = BTreeMap::new();
     for fv in &fresh_violations {
-        by_class.entry(fv.2.class.clone()).or_insert_with(|| fv.clone());
+        by_class.entry(format!("{}|{}", fv.2.class, fv.2.sig.clone().unwrap_or_default())).or_insert_with(|| fv.clone());
     }
     let mut reported = 0;
-    for (class, (idx, seed, v, spec)) in by_class.iter().take(4) {
+    for (_key, (idx, seed, v, spec)) in by_class.iter().take(6) {
+        let class = &v.class;
         let (min_spec, rounds) = if spec.is_null() || spec.get("spec").is_none() && spec.get("check").is_some() && spec.get("world").is_none() {
             (spec.clone(), 0)
         } else {
